@@ -255,7 +255,7 @@ pub fn property() -> Property {
             "names whose basename and whole name classify differently are outside the generated domain",
             "RCS Id through the API is unset or starts with '$NetBSD: '",
         ],
-        streams: vec![random_stream("files", "canonical files, parse->write and API->write->parse", case_strategy, |t| t.pick(60_000, 1_000_000), check)],
+        streams: vec![random_stream("files", "canonical files, parse->write and API->write->parse", case_strategy, |t| t.pick(60_000, 4_000_000), check)],
         selfcheck: m::selfcheck,
         hang_is_violation: false,
         min_nontrivial_share: 0.05,
